@@ -10,7 +10,7 @@ use serde_json::{json, Value};
 use std::sync::{Arc, Mutex};
 use surf_n_term::view::{
     Align, ArcView, Axis, BoxConstraint, Container, Dynamic, Either, Flex, FlexChild, FlexRef, Frame, Justify, Layout, Margins, ScrollBar,
-    ScrollBarPosition, Tag, Text, Tree, View, ViewCache, ViewContext, ViewDeserializer, ViewLayout, ViewLayoutStore, ViewMutLayout,
+    ScrollBarPosition, Tag, Text, Tree, TreeMut, View, ViewCache, ViewContext, ViewDeserializer, ViewLayout, ViewLayoutStore, ViewMutLayout,
 };
 use surf_n_term::{
     Cell, CellWrite, Error, Face, Position, Size, Surface, SurfaceMut, SurfaceMutView, SurfaceOwned, TerminalSurface, RGBA,
@@ -373,7 +373,7 @@ fn align_doc(v: &Value) -> Value {
 
 /// JSON document of the subtree; flex / container / tag / plain text are genuine library types,
 /// every other node goes through the custom type "h" registered by the harness
-fn doc(node: &Value) -> Value {
+fn doc(node: &Value, env: &Env) -> Value {
     match node["t"].as_str().unwrap_or("") {
         "flex" => {
             let kids: Vec<Value> = node["kids"]
@@ -382,7 +382,7 @@ fn doc(node: &Value) -> Value {
                 .unwrap_or_default()
                 .iter()
                 .map(|k| {
-                    let mut c = json!({"view": doc(&k["v"]), "align": align_doc(&k["align"])});
+                    let mut c = json!({"view": doc(&k["v"], env), "align": align_doc(&k["align"])});
                     if let Some(f) = flex_of(k) {
                         c["flex"] = json!(f);
                     }
@@ -399,13 +399,26 @@ fn doc(node: &Value) -> Value {
         "container" => {
             let m = vusizes(&node["m"]);
             let sz = vusizes(&node["size"]);
-            json!({"type": "container", "child": doc(&node["v"]), "face": face_str(&node["face"]),
+            json!({"type": "container", "child": doc(&node["v"], env), "face": face_str(&node["face"]),
                    "vertical": align_doc(&node["av"]), "horizontal": align_doc(&node["ah"]),
                    "margins": {"left": m[0], "right": m[1], "top": m[2], "bottom": m[3]},
                    "size": {"height": sz[0], "width": sz[1]}})
         }
-        "tag" => json!({"type": "tag", "tag": node["tag"], "view": doc(&node["v"])}),
+        "tag" => json!({"type": "tag", "tag": node["tag"], "view": doc(&node["v"], env)}),
         "str" => json!({"type": "text", "text": string_of(node)}),
+        "image" => match env.defs.images.get(node["id"].as_u64().unwrap_or(0) as usize) {
+            Some(i) => {
+                let mut d = image_doc(i.height(), i.width(), 0x204060ff);
+                d["type"] = json!("image");
+                d
+            }
+            None => json!({"type": "h", "node": node}),
+        },
+        "glyph" => match env.defs.glyphs.get(node["id"].as_u64().unwrap_or(0) as usize) {
+            Some(g) => json!({"type": "glyph", "path": "M0,0L1,1L1,0Z", "size": {"height": g.size().height, "width": g.size().width},
+                              "fallback": g.fallback_str()}),
+            None => json!({"type": "h", "node": node}),
+        },
         "ascii" => {
             let mut d = image_doc(node["h"].as_u64().unwrap_or(1) as usize, node["w"].as_u64().unwrap_or(1) as usize, node["color"].as_u64().unwrap_or(255));
             d["type"] = json!("image_ascii");
@@ -416,7 +429,9 @@ fn doc(node: &Value) -> Value {
 }
 
 // ---------- Coq printing ----------
-fn node_coq(node: &Value, env: &Env) -> String {
+fn node_coq(node: &Value, env: &Env, genuine: bool) -> String {
+    // genuine: the node is deserialised by the library itself (JSON route, below flex / container / tag only);
+    // images and glyphs are then fresh objects, not the ones of the case's tables
     let defs = &env.defs;
     match node["t"].as_str().unwrap_or("") {
         "text" => {
@@ -432,7 +447,7 @@ fn node_coq(node: &Value, env: &Env) -> String {
                     _ => "None".to_string(),
                 };
                 let face = if k["face"].is_object() { format!("(Some {})", face_coq(&face_from(&k["face"]))) } else { "None".to_string() };
-                format!("({}, {}, {}, {})", node_coq(&k["v"], env), fl, face, align_coq(&k["align"]))
+                format!("({}, {}, {}, {})", node_coq(&k["v"], env, genuine), fl, face, align_coq(&k["align"]))
             }));
             format!("(VFlex {} {} {})", if node["dir"].as_str() == Some("v") { "Ver" } else { "Hor" }, justify_coq(&node["j"]), kids)
         }
@@ -441,7 +456,7 @@ fn node_coq(node: &Value, env: &Env) -> String {
             let sz = vusizes(&node["size"]);
             format!(
                 "(VContainer {} {} {} {} (mkM {} {} {} {}) {} {})",
-                node_coq(&node["v"], env),
+                node_coq(&node["v"], env, genuine),
                 face_coq(&face_from(&node["face"])),
                 align_coq(&node["av"]),
                 align_coq(&node["ah"]),
@@ -453,7 +468,7 @@ fn node_coq(node: &Value, env: &Env) -> String {
                 sz[1]
             )
         }
-        "frame" => format!("(VFrame {} {})", node_coq(&node["v"], env), node["color"].as_u64().unwrap_or(255)),
+        "frame" => format!("(VFrame {} {})", node_coq(&node["v"], env, false), node["color"].as_u64().unwrap_or(255)),
         "scroll" => format!(
             "(VScrollBar {} {} {} {} {})",
             if node["dir"].as_str() == Some("v") { "Ver" } else { "Hor" },
@@ -462,25 +477,25 @@ fn node_coq(node: &Value, env: &Env) -> String {
             node["vis"].as_u64().unwrap_or(0),
             node["den"].as_u64().unwrap_or(8)
         ),
-        "tag" => format!("(VTag {} {})", node["tag"].as_u64().unwrap_or(0), node_coq(&node["v"], env)),
+        "tag" => format!("(VTag {} {})", node["tag"].as_u64().unwrap_or(0), node_coq(&node["v"], env, genuine)),
         "none" => "VNone".to_string(),
-        "some" | "either" => node_coq(&node["v"], env),
+        "some" | "either" => node_coq(&node["v"], env, false),
         "dyn" => format!(
             "(VDynamic (fun c => if ({} * c_maxh c <? c_maxw c) then {} else {}))",
             node["k"].as_u64().unwrap_or(1),
-            node_coq(&node["a"], env),
-            node_coq(&node["b"], env)
+            node_coq(&node["a"], env, false),
+            node_coq(&node["b"], env, false)
         ),
         "fill" => format!("(VFill {})", node["color"].as_u64().unwrap_or(255)),
         "unit" => "VUnit".to_string(),
         "image" => match defs.images.get(node["id"].as_u64().unwrap_or(0) as usize) {
-            Some(i) => format!("(VImage {} {} {})", node["id"].as_u64().unwrap_or(0), i.height(), i.width()),
+            Some(i) => format!("(VImage {} {} {})", if genuine { 999 } else { node["id"].as_u64().unwrap_or(0) }, i.height(), i.width()),
             None => "VUnit".to_string(),
         },
         "glyph" => match defs.glyphs.get(node["id"].as_u64().unwrap_or(0) as usize) {
             Some(g) => format!(
                 "(VGlyph {} {} {} {})",
-                node["id"].as_u64().unwrap_or(0),
+                if genuine { 999 } else { node["id"].as_u64().unwrap_or(0) },
                 cnat(g.size().height),
                 cnat(g.size().width),
                 clist(g.fallback_str().chars().map(|c| (c as u32).to_string()))
@@ -496,7 +511,7 @@ fn node_coq(node: &Value, env: &Env) -> String {
         ),
         "ascii" => format!("(VImageAscii {} {} {})", node["h"].as_u64().unwrap_or(1), node["w"].as_u64().unwrap_or(1), (node["color"].as_u64().unwrap_or(255) & 0xffffff00) | 255),
         "cached" => match node.get("v") {
-            Some(v) if !v.is_null() => format!("(VRef (Some {}))", node_coq(v, env)),
+            Some(v) if !v.is_null() => format!("(VRef (Some {}))", node_coq(v, env, false)),
             _ => "(VRef None)".to_string(),
         },
         _ => format!("(VProbe {} {} {})", node["id"].as_u64().unwrap_or(0), node["ph"].as_u64().unwrap_or(1), node["pw"].as_u64().unwrap_or(1)),
@@ -540,7 +555,7 @@ fn run_case(input: &Value, env: &Arc<Env>, hh: usize, ww: usize, vops: &[VOp]) -
         let mut de = ViewDeserializer::new(None, None);
         let env2 = env.clone();
         de.register("h", move |_seed: &ViewDeserializer<'_>, value: &Value| -> Arc<dyn View> { Arc::from(build(&value["node"], &env2)) });
-        let v = (&de).deserialize(doc(&input["tree"])).expect("deserialize");
+        let v = (&de).deserialize(doc(&input["tree"], env)).expect("deserialize");
         Box::new(v)
     } else {
         build(&input["tree"], env)
@@ -595,7 +610,77 @@ fn path_of_borrowed(root: &ViewLayout<'_>, pos: Position) -> Vec<usize> {
     out
 }
 
+// ---------- FindPath on hand-made layout trees ----------
+fn push_tree(mut parent: ViewMutLayout<'_>, node: &Value) {
+    for k in node["kids"].as_array().cloned().unwrap_or_default() {
+        let p = vusizes(&k["pos"]);
+        let z = vusizes(&k["size"]);
+        let child = parent.push(Layout::new().with_position(Position::new(p[0], p[1])).with_size(Size::new(z[0], z[1])));
+        push_tree(child, &k);
+    }
+}
+
+fn ltree_coq(node: &Value) -> String {
+    let p = vusizes(&node["pos"]);
+    let z = vusizes(&node["size"]);
+    format!(
+        "(LNode {} {} {} {} DNone {})",
+        p[0],
+        p[1],
+        z[0],
+        z[1],
+        clist(node["kids"].as_array().cloned().unwrap_or_default().iter().map(ltree_coq))
+    )
+}
+
+fn run_fp(input: &Value) -> Case {
+    let t = &input["tree"];
+    let out = catch(std::panic::AssertUnwindSafe(|| {
+        let p = vusizes(&t["pos"]);
+        let z = vusizes(&t["size"]);
+        let mut store = ViewLayoutStore::new();
+        let mut root = ViewMutLayout::new(&mut store, Layout::new().with_position(Position::new(p[0], p[1])).with_size(Size::new(z[0], z[1])));
+        push_tree(root.view_mut(), t);
+        let view = root.view();
+        let mut paths = vec![];
+        for r in 0..13 {
+            for c in 0..13 {
+                paths.push(path_of_borrowed(&view, Position::new(r, c)));
+            }
+        }
+        paths
+    }));
+    let mut j = input.clone();
+    let coq = match &out {
+        Some(paths) => {
+            j["impl"] = json!({"paths": paths});
+            format!("CF {} {}", ltree_coq(t), clist(paths.iter().map(|p| clist(p.iter().map(|i| cnat(*i))))))
+        }
+        None => {
+            j["impl"] = json!("panic");
+            format!("CF {} []", ltree_coq(t))
+        }
+    };
+    Case { coq, json: j, tags: vec!["kind=find_path".to_string()], nontrivial: out.is_some() }
+}
+
+fn gen_fp_node(rng: &mut Rng, depth: usize) -> Value {
+    let ext = |rng: &mut Rng| -> u64 {
+        match rng.below(14) {
+            0 => u64::MAX,
+            1 => u64::MAX - rng.below(4),
+            _ => rng.below(9),
+        }
+    };
+    let n = if depth == 0 { 0 } else { rng.below(5) as usize };
+    let kids: Vec<Value> = (0..n).map(|_| gen_fp_node(rng, depth - 1)).collect();
+    json!({"pos": [ext(rng), ext(rng)], "size": [ext(rng), ext(rng)], "kids": kids})
+}
+
 pub fn run(input: &Value) -> Case {
+    if input["k"].as_str() == Some("fp") {
+        return run_fp(input);
+    }
     let hh = input["H"].as_u64().unwrap_or(1) as usize;
     let ww = input["W"].as_u64().unwrap_or(1) as usize;
     let vops = vops_from(&input["vops"]);
@@ -624,7 +709,7 @@ pub fn run(input: &Value) -> Case {
         ct[1],
         ct[2],
         ct[3],
-        node_coq(&input["tree"], &env)
+        node_coq(&input["tree"], &env, route == "json")
     );
     let out = {
         let e = &env;
@@ -821,6 +906,11 @@ fn gen_node(rng: &mut Rng, g: &mut Gen, depth: usize) -> Value {
 pub fn generate(rng: &mut Rng, n: usize, _tier: &str) -> Vec<Value> {
     let mut v = vec![];
     while v.len() < n {
+        if rng.chance(1, 12) {
+            let depth = 1 + rng.below(3) as usize;
+            v.push(json!({"k": "fp", "tree": gen_fp_node(rng, depth)}));
+            continue;
+        }
         let ng = rng.below(3) as usize;
         let glyph_defs: Vec<Value> = (0..ng)
             .map(|_| {
